@@ -503,3 +503,51 @@ Definition symbols_ok_mesen (globals : list sym) (t : list N) : bool :=
   | Some lines => forallb2 mlb_eqb lines (somes (map expected_mlb (expected_symbols globals)))
   | None => false
   end.
+
+(* ---------------------------------------------------------------- the address actually assigned
+   A bank places address `addr_start + n` at the n-th address unit of its output window, i.e. at output bits
+   outp + n * unit .. outp + (n+1) * unit - 1.  So the logical address of an emitted item whose first bit is at
+   output position `off` inside the window of a bank is  addr_start + (off - outp) / unit  (an item that starts
+   inside a unit belongs to that unit's address), and a label (a row without data) at `off` names the address
+   of the unit that starts there; a label (or a zero-sized item) may also stand at the very end of a window.
+   bw_size is the size of the window in BITS (Bankdef::size), None = unbounded.
+   The default bank (index 0: unit 8, address 0, output 0, unbounded) exists only while no bank is defined. *)
+Record bankw := mk_bankw { bw_index : N; bw_addr : Z; bw_unit : N; bw_outp : option N; bw_size : option N }.
+
+Definition usable_banks (banks : list bankw) : list bankw :=
+  match banks with
+  | [_] => banks
+  | _ => filter (fun b => negb (bw_index b =? 0)) banks
+  end.
+
+(* the address bank b gives to output position off; closed = the end of the window counts too *)
+Definition bank_addr_at (closed : bool) (b : bankw) (off : N) : option Z :=
+  match bw_outp b with
+  | None => None
+  | Some outp =>
+    if (bw_unit b =? 0) || (off <? outp) then None
+    else
+      let inside := match bw_size b with
+                    | None => true
+                    | Some size => if closed then off <=? outp + size else off <? outp + size
+                    end in
+      if inside then Some (bw_addr b + Z.of_N ((off - outp) / bw_unit b))%Z else None
+  end.
+
+Definition span_addr_ok (banks : list bankw) (s : lspan) : bool :=
+  match ls_offset s with
+  | None => true                       (* no output position: nothing to compare the address with *)
+  | Some off =>
+    if 0 <? ls_size s
+    then existsb (fun b => match bank_addr_at false b off with Some a => Z.eqb a (ls_addr s) | None => false end)
+                 (usable_banks banks)
+         && forallb (fun b => match bank_addr_at false b off with Some a => Z.eqb a (ls_addr s) | None => true end)
+                    (usable_banks banks)
+    else existsb (fun b => match bank_addr_at true b off with
+                           | Some a => Z.eqb a (ls_addr s)
+                           | None => false end)
+                 (usable_banks banks)
+  end.
+
+(* every listed address is the address the layout assigned to that output position *)
+Definition addresses_ok (banks : list bankw) (spans : list lspan) : bool := forallb (span_addr_ok banks) spans.
